@@ -1184,6 +1184,10 @@ func (app *App) enableSemiSyncOnSlave(host string, slaveState, masterState *node
 		app.logger.Error().Err(err).Msgf("failed to enable semi_sync_slave on %s", host)
 		return err
 	}
+	if masterState.MasterState == nil || slaveState.SlaveState == nil {
+		// e.g. the recorded master is itself a replica of a replica: its master state is unknown
+		return fmt.Errorf("gtid state of master or replica %s is unknown", host)
+	}
 	masterGtidSet := gtids.ParseGtidSet(masterState.MasterState.ExecutedGtidSet)
 	slaveGtidSet := gtids.ParseGtidSet(slaveState.SlaveState.ExecutedGtidSet)
 
